@@ -2,6 +2,11 @@
 """Regenerates MANIFEST.json from the table below (keeps it valid at all times)."""
 import json, sys
 CHECKS = {
+ "C14": dict(level="exploration", design="4/C14",
+   text="Seeded proptest search in both directions. (->) raw libraries incl. abstract views, cells in shuffled listing order, eight instance orientations, all shape kinds, nets, annotations: to_proto must list every cell after the cells it instantiates, from_proto must succeed and name, units, views, shapes (multisets per layer/purpose number), instances (name, target, location, reflection, rotation), annotations, ports and blockages must be equal. (<-) generated protobuf messages in the supported subset with a matching Layers table: from_proto then to_proto must equal the message (port/blockage layer lists as multisets).",
+   note="Units::Pico is outside the schema; order of map-derived lists is C20's subject.",
+   technique="property-based testing: round-trip oracle in both directions plus a dependency-order validity predicate"),
+
  "C18": dict(level="exploration", design="4/C18",
    text="Seeded proptest search over GDSII and LEF library values whose string fields are replaced by strings built from JSON/YAML-special characters and whose doubles span the GDSII range, crossed with {JSON, YAML} x {to_string/from_str, save/open}; GDSII file -> to_markup -> from_markup -> GDSII bytes; sweeps of 16 doubles per case. Oracle: loaded value equal to the original with doubles compared by bit pattern, decimals by value; bytes identical.",
    note="TOML not in the property. The harness adds no serde_json/rust_decimal/serde_yaml feature beyond the repository's own.",
